@@ -988,7 +988,7 @@ def _connection_ids(srv):
     else:
         res.append(R.decide("order:Server::start_inner:connection-ids", "order", z3.Or(*viol) if viol else z3.BoolVal(False), [z3.Or(*reach_l[0])], bodies=[b.name],
                             desc="consecutive accepted connections are given consecutive (hence different) connection ids", bounds="two and three accepts in a row from every resume point (wrap-around after 2^32 connections is outside)",
-                            keydetail="connection-ids", replay=dict(scenario="c06_history", vars={}, fixed={"cap": 2, "ops": [["sub", 0], ["unsub", 1, 0], ["unsub", 0, 0]]}, region=z3.BoolVal(True))))
+                            keydetail="connection-ids", replay=dict(scenario="c06_history", vars={}, fixed={"cap": 2, "ops": [["sub", 1], ["close", 0], ["reopen", 0], ["unsub", 0, 0], ["unsub", 1, 0]]}, region=z3.BoolVal(True))))
     b = R.find_body(srv, r"^fn server::<impl at server/src/server\.rs:[\d: ]+>::build\(_1: TowerServiceBuilder<RpcMiddleware, HttpMiddleware>, _2: impl Into<Methods>, _3: StopHandle\)")
     ctx = P.make_ctx(srv, extra_models=list(SQ.TRY_MODELS))
     ctx.inline = []
